@@ -157,6 +157,11 @@ func (interp *Interpreter) cfg(root *node, sc *scope, importPath, pkgName string
 						k, o = n.anc.child[0], n.anc.child[1]
 					}
 
+					if !isRangeable(o.typ) {
+						err = o.cfgErrorf("cannot range over %s", o.typ.id())
+						return false
+					}
+
 					switch o.typ.cat {
 					case valueT, linkedT:
 						typ := o.typ.rtype
@@ -207,6 +212,15 @@ func (interp *Interpreter) cfg(root *node, sc *scope, importPath, pkgName string
 						n.anc.gen = rangeInt
 						sc.add(sc.getType("int"))
 						ktyp = sc.getType("int")
+					}
+
+					switch {
+					case v != nil && (isChan(o.typ) || isInt(o.typ.TypeOf())):
+						err = o.cfgErrorf("range over %s permits only one iteration variable", o.typ.id())
+						return false
+					case ktyp == nil || v != nil && vtyp == nil:
+						err = o.cfgErrorf("range over %s is not supported", o.typ.id())
+						return false
 					}
 
 					kindex := sc.add(ktyp)
